@@ -69,6 +69,15 @@ def compare_histograms(rec: core.Recorder, h, r, *, op: str, detail=None, monito
     for k in ("dtype", "keep_missed", "adaptive", "name", "title", "axis_names", "underflow", "overflow", "inner_missed", "missed"):  # includes_right_edge is not named by the statement: not asserted
         if k in s0 and s0[k] != s1.get(k):
             fail(f"{k} differs after the round trip", [k], before=s0[k], after=s1.get(k))
+    # the same bins are the same intervals: a value on the upper edge of the last bin belongs to both objects or to neither (a later
+    # fill of that value must end in the same place) - whether the last bin is closed is part of what the bins are
+    try:
+        for ax, (b, c) in enumerate(zip(h.binnings, r.binnings)):
+            if len(np.asarray(b.bins)) and bool(b.includes_right_edge) != bool(c.includes_right_edge):
+                fail("a value on the upper edge of the last bin is placed differently by the parsed histogram (right edge closed / open not kept)", ["includes_right_edge"],
+                     axis=ax, original=bool(b.includes_right_edge), parsed=bool(c.includes_right_edge), binning=type(b).__name__)
+    except Exception as e:
+        fail(f"binnings not comparable: {type(e).__name__}", ["includes_right_edge"], error=str(e)[:100])
     # custom metadata through the public attribute
     try:
         m0 = {k: v for k, v in h.meta_data.items()}
@@ -111,6 +120,18 @@ def check_roundtrip(rec: core.Recorder, obj, text: str, *, op: str, detail=None)
             return False
         for i, (x, y) in enumerate(zip(a, b)):
             ok = compare_histograms(rec, x, y, op=op + f"[{i}]", detail=detail) and ok
+        # the collection's own name / title / bins are part of what it is
+        for attr in ("name", "title"):
+            if getattr(obj, attr, None) != getattr(parsed, attr, None):
+                rec.fail(prop="C08", monitor="C08.roundtrip", op=op, symptom=f"the collection's own {attr} is not the same after the round trip", diff=[attr],
+                         detail={**detail, "before": getattr(obj, attr, None), "after": getattr(parsed, attr, None)})
+                ok = False
+        try:
+            if not np.array_equal(np.asarray(obj.binning.bins), np.asarray(parsed.binning.bins)):
+                rec.fail(prop="C08", monitor="C08.roundtrip", op=op, symptom="the collection's own bins are not the same after the round trip", diff=["bins"], detail=detail)
+                ok = False
+        except Exception:
+            pass
     # serialising the parsed object again gives the same document
     try:
         text2 = parsed.to_json()
